@@ -94,3 +94,32 @@ def linear_events(ctx, fn, classify, derive, depth=3, _tainted=frozenset(), _sta
             visit(ch)
     visit(thir.body_of(fn))
     return out
+
+
+def reaches(lib, node, pred, depth=2):
+    """does `node` (an expression, e.g. a match arm's body) contain a node satisfying pred, or call -- directly or through local
+    helpers of the same crate, depth-bounded -- a function whose body does?"""
+    from . import thir as _t
+    for n in _t.walk(node):
+        if pred(n):
+            return True
+    if depth <= 0:
+        return False
+    for n in _t.walk(node):
+        if n.get("k") == "Call" and "fn" in n:
+            q = lib.fns.get(_t.callee_of(n) or n.get("fn") or "")
+            if q is not None and _t.body_of(q) is not None and reaches(lib, _t.body_of(q), pred, depth - 1):
+                return True
+    return False
+
+
+def key_arms(fn):
+    """{string: arm body} of the matches on string keys in fn"""
+    from . import thir as _t
+    out = {}
+    for n in _t.walk(_t.body_of(fn)):
+        if n.get("k") == "Match":
+            for a in n["arms"]:
+                for sv in _t.pat_strings(a["pat"]):
+                    out.setdefault(sv, a["body"])
+    return out
